@@ -199,6 +199,7 @@ def _volume_shapes(tier):
     out = [dict(deg=[1, 1, 1], m=[[], [], []], rational=False, samples=[2, 2, 2]),
            dict(deg=[2, 1, 1], m=[[1], [], []], rational=False, samples=[2, 2, 3]),
            dict(deg=[1, 1, 2], m=[[], [1], []], rational=True, samples=[2, 2, 2]),
+           dict(deg=[1, 1, 1], m=[[], [], []], rational=True, samples=[2, 2, 2], dim=4),       # points of dimension 4 (+ weight)
            dict(deg=[1, 2, 1], m=[[1], [], []], rational=False, samples=[2, 2, 2], free=True)]      # normalize_kv=False, unclamped
     if tier == 'thorough':
         out += [dict(deg=[2, 2, 2], m=[[1], [], [1]], rational=False, samples=[3, 2, 2]),
@@ -209,7 +210,7 @@ def _volume_shapes(tier):
 @scenario('C01', fns=['BSpline.Volume.evaluate_single', 'BSpline.Volume.evaluate_list', 'BSpline.Volume.evaluate',
                       'evaluators.VolumeEvaluator.evaluate', 'evaluators.VolumeEvaluatorRational.evaluate'],
           quick=lambda: _volume_shapes('quick'), thorough=lambda: _volume_shapes('thorough'))
-def volume_eval(ctx, deg, m, rational, samples, free=False):
+def volume_eval(ctx, deg, m, rational, samples, free=False, dim=3):
     """ensures V(u,v,w) == tensor-product definition with layout v + sv*(u + su*w); grid order u, v, w (w innermost)"""
     kvs, sizes = [], []
     for a, pfx in enumerate('abc'):
@@ -221,7 +222,7 @@ def volume_eval(ctx, deg, m, rational, samples, free=False):
     dom = [(kvs[a][deg[a]], kvs[a][sizes[a]]) for a in range(3)]
     prm = [shapes.param_in(ctx, nm, lo, hi) for nm, (lo, hi) in zip(('u', 'v', 'w'), dom)]
     su, sv, sw = sizes
-    P = shapes.net(ctx, 'P', su * sv * sw, 3)
+    P = shapes.net(ctx, 'P', su * sv * sw, dim)
     W = shapes.weights(ctx, 'w', su * sv * sw) if rational else None
     vol = shapes.build_volume(ctx, deg[0], deg[1], deg[2], kvs[0], kvs[1], kvs[2], P, su, sv, sw, W, normalize_kv=not free)
     Pw = shapes.homog(P, W)
@@ -257,6 +258,51 @@ def _grid_order(ctx, pts, samples, Vv, dom):
                 ctx.check_eq_vec('grid[u=%d,v=%d,w=%d]' % (i, j, k), pts[idx], Vv(a, b, c))
                 idx += 1
     return True
+
+
+# ------------------------------------------------------------------------------------------------
+# "the sampled grid has the documented size" for sample sizes at which 1/(1/n) is not n in floating point
+# ------------------------------------------------------------------------------------------------
+@scenario('C01', fns=['abstract.Curve.sample_size', 'abstract.Surface.sample_size', 'abstract.Volume.sample_size',
+                      'abstract.Curve.delta', 'abstract.Surface.delta', 'abstract.Volume.delta', 'linalg.linspace'],
+          quick=[dict(kind=k, n=n) for k in ('curve', 'surface', 'volume') for n in (2, 7)],
+          # the same contract at run time on native floats: the sizes are stored as delta = 1/n and recomputed from it,
+          # which is the identity in exact arithmetic (A1) but a rounding question in floats
+          native=lambda tier: [dict(kind=k, n=n) for k in ('curve', 'surface', 'volume')
+                               for n in ((49, 93, 99, 105, 117, 186) if k != 'volume' else (49, 93))])
+def grid_size(ctx, kind, n):
+    """requires: a concrete shape; the sample size n set through the public setter (one direction n, the others 2)
+       ensures : the getter returns n; the sampled grid has n (x 2 x 2) points, its first / last point are the corners"""
+    L = ctx.lit
+    if kind == 'curve':
+        P = [[L(0), L(0)], [L(1), L(2)], [L(3), L(1)]]
+        shp = shapes.build_curve(ctx, 2, [L(0)] * 3 + [L(1)] * 3, P)
+        shp.sample_size = n
+        ctx.check_true('sample_size.reads_back', shp.sample_size == n, str(shp.sample_size))
+        total = n
+    elif kind == 'surface':
+        P = [[L(i), L(j), L(i * j)] for i in range(2) for j in range(3)]
+        shp = shapes.build_surface(ctx, 1, 2, [L(0)] * 2 + [L(1)] * 2, [L(0)] * 3 + [L(1)] * 3, P, 2, 3)
+        for first in (True, False):
+            shp.sample_size_u, shp.sample_size_v = (n, 2) if first else (2, n)
+            ctx.check_true('sample_size.reads_back', (shp.sample_size_u, shp.sample_size_v) == ((n, 2) if first else (2, n)))
+            ctx.check_true('grid.size[%s]' % ('u' if first else 'v'), len(shp.evalpts) == 2 * n, str(len(shp.evalpts)))
+        total = 2 * n
+    else:
+        P = [[L(i), L(j), L(k)] for k in range(2) for i in range(2) for j in range(2)]
+        kv = [L(0)] * 2 + [L(1)] * 2
+        shp = shapes.build_volume(ctx, 1, 1, 1, kv, kv, kv, P, 2, 2, 2)
+        for d in range(3):
+            sz = [2, 2, 2]
+            sz[d] = n
+            shp.sample_size_u, shp.sample_size_v, shp.sample_size_w = sz
+            ctx.check_true('sample_size.reads_back', [shp.sample_size_u, shp.sample_size_v, shp.sample_size_w] == sz)
+            ctx.check_true('grid.size[%d]' % d, len(shp.evalpts) == 4 * n, str(len(shp.evalpts)))
+        total = 4 * n
+    pts = shp.evalpts
+    ctx.check_true('grid.size', len(pts) == total, str(len(pts)))
+    ctx.check_eq_vec('grid.first_is_corner', pts[0], P[0])
+    ctx.check_eq_vec('grid.last_is_corner', pts[-1], P[-1])
 
 
 # ------------------------------------------------------------------------------------------------
